@@ -85,7 +85,7 @@ def c14_families(tier):
         ex.append(fam("numa", "num", 0, [], [48, 49, 57, 97, 102, 69, 88, 120, 46, 45], 4))
         ex.append(fam("numx", "num", 0, S("0"), [48, 55, 57, 102, 70, 120, 88, 46, 101], 6))
     else:
-        gen = [BS, DQ, SQ, 48, 55, 56, 97, 120, 117, 43, 103, LF, NUL, EACUTE]
+        gen = [BS, DQ, 48, 55, 56, 97, 120, 117, 43, 103, LF, NUL, EACUTE]
         ex.append(fam("gen", "str", DQ, [], gen, 4))
         ex.append(fam("rawb", "str", DQ, [], [BS, DQ, 97, RAW80], 3))
         ex.append(fam("hex", "str", DQ, S("\\x"), [DQ, BS, 48, 70, 102, 103, 43, 45, EACUTE], 5))
@@ -94,7 +94,8 @@ def c14_families(tier):
         for i, p in enumerate(["\\U000", "\\U001", "\\U00+", "\\U+00", "\\U0-0", "\\U100", "\\UF00"]):
             ex.append(fam("U%d" % i, "str", DQ, S(p), [48, 70, 43, 103], 10))
         ex.append(fam("X", "str", DQ, S("\\X"), [DQ, BS, 103, 43], 4))
-        ex.append(fam("sq", "str", SQ, [], [BS, DQ, SQ, 97, 48, 32], 4))
+        ex.append(fam("sq", "str", SQ, [], [BS, DQ, SQ, 97, 48, 32, 120], 4))
+        ex.append(fam("dsq", "str", DQ, [], [BS, DQ, SQ, 97, 10], 4))
         ex.append(fam("num", "num", 0, [], [48, 49, 50, 53, 55, 57, 97, 101, 120, 46, 43, 45], 4))
         ex.append(fam("num5", "num", 0, [], [48, 49, 53, 101, 46, 45], 5))
     # every class of the alphabet at least once in an exhaustive family, in both tiers
